@@ -239,20 +239,28 @@ def random_scenario(rng, idx, repo="vdb"):
 
 
 def binpkg_scenarios():
-    """Binary-package repository: install into a new / an existing category, replace the same version, uninstall
-    (last of its category / with a sibling)."""
+    """Binary-package repository: install into a new category, replace the same version, replace by a different
+    version and by a different revision (different file names), uninstall (last of its category / with a sibling)."""
     by = pkgspec("dev-util", "bar-3.1", slot="3")
     old = pkgspec("dev-util", "foo-1.0", desc="the OLD foo", use="a")
     same_new = pkgspec("dev-util", "foo-1.0", desc="the NEW build of foo", use="a b",
                        files=[["dir", "/usr"], ["dir", "/usr/bin"], ["obj", "/usr/bin/foo-1.0"], ["obj", "/usr/bin/foo-extra"],
                               ["sym", "/usr/bin/foo", "foo-1.0"]], env_lines=6)
     newer = pkgspec("app-misc", "solo-2.0", slot="0/2", desc="solo two")
+    # replace ACROSS file names: the old and the new package live in different .tbz2 files
+    newer_foo = pkgspec("dev-util", "foo-2.0", slot="0/2", desc="foo two", use="b",
+                        files=[["dir", "/usr"], ["dir", "/usr/bin"], ["obj", "/usr/bin/foo-2.0"], ["sym", "/usr/bin/foo", "foo-2.0"]])
+    rev_foo = pkgspec("dev-util", "foo-1.0-r1", desc="foo 1.0 revision 1", use="a b", env_lines=5)
     solo_old = pkgspec("app-misc", "solo-1", desc="only package of its category")
     return [
         {"name": "binpkg-install-new-category", "repo": "binpkg", "op": "install", "pre": [by], "old": None, "new": newer,
          "needed": False, "installed": []},
         {"name": "binpkg-replace-same-version", "repo": "binpkg", "op": "replace", "pre": [old, by], "old": cpv(old),
          "new": same_new, "needed": False, "installed": []},
+        {"name": "binpkg-replace-new-version", "repo": "binpkg", "op": "replace", "pre": [old, by], "old": cpv(old),
+         "new": newer_foo, "needed": False, "installed": []},
+        {"name": "binpkg-replace-new-revision", "repo": "binpkg", "op": "replace", "pre": [old], "old": cpv(old),
+         "new": rev_foo, "needed": False, "installed": []},
         {"name": "binpkg-uninstall-last-of-category", "repo": "binpkg", "op": "uninstall", "pre": [solo_old, by],
          "old": cpv(solo_old), "new": None, "needed": False, "installed": []},
         {"name": "binpkg-uninstall-with-sibling", "repo": "binpkg", "op": "uninstall", "pre": [old, by], "old": cpv(old),
